@@ -304,8 +304,10 @@ class Verdict:
         self.known_hit = {}      # finding id -> example
         self.notes = []
 
-    def violation(self, name, msg, replay, has_input=True):
-        self.violations.append((name, msg, replay, has_input))
+    def violation(self, name, msg, replay, has_input=True, weak=False):
+        """weak: a recorded finding's symptom on a case where implementation and model disagree
+        elsewhere — reported only if nothing more specific was found"""
+        self.violations.append((name, msg, replay, has_input, weak))
 
     def known(self, fid, what):
         self.known_hit.setdefault(fid, what)
@@ -316,8 +318,9 @@ class Verdict:
         if not self.violations:
             return 0
         # report the first violation with an input if any, else the first
+        strong = [v for v in self.violations if v[3] and not v[4]]
         withinp = [v for v in self.violations if v[3]]
-        name, msg, replay, has_input = (withinp or self.violations)[0]
+        name, msg, replay, has_input, _ = (strong or withinp or self.violations)[0]
         path = write_replay(self.prop, name, replay)
         print(f"# {msg}")
         tail = "" if has_input else " no-failing-input-found"
